@@ -906,8 +906,9 @@ MANIFEST_ENTRY = {
             "ImageBatch.__torch_function__ and FlowFields.__torch_function__ that does not reorder/mix the batch dimension yields a "
             "plain tensor or a batch with exactly one grid per entry, of the data's spatial shape, entry i carrying the grid (and axes) "
             "of the operand entry whose data it holds, never raising where the plain operation succeeds; (2) elementwise operations "
-            "with two tensor operands (both classes, plain tensors, broadcasting); (3) torch.cat along any dimension, torch.stack, "
-            "split / split_with_sizes / tensor_split (sections and indices) along any dimension; (4) __getitem__ for every form, "
+            "with two tensor operands (both classes, plain tensors, broadcasting; batch o image; image o batch is plain); (3) torch.cat along any dimension, torch.stack, "
+            "split / split_with_sizes / tensor_split (sections and indices) along any dimension; cat of any number of FlowFields and every "
+            "split form of FlowFields along the batch dimension (grids and axes); (4) __getitem__ for every form, "
             "narrow method, __iter__, from_images / collate of any selection, append, copy / deepcopy / pickle; (5) the Image / FlowField "
             "dispatchers; (6) closure under programs of any length by induction (syntactic family and general form); (7) _refuted "
             "witnesses for the two design decisions kept by the maintainers (batch reordering / mixing with unchanged shape). Tie: "
@@ -915,7 +916,7 @@ MANIFEST_ENTRY = {
             "proved equal to the pinned ones) + correspondence on adaptively generated programs of 1-3 operations (type, grid ids, axes, "
             "shape and measured per-entry provenance compared exactly inside Coq) + value oracles on the real data (copies of views, "
             "converted flow vectors, result shape vs the plain operation).",
-    "note": "No theorem (correspondence + implementation-side evaluation only): cat / split of FlowFields, n-ary operations mixing single "
-            "images and batches, ImageBatch.sample, the values of converted flow vectors. Trusted: torch's shape/index semantics as modelled "
+    "note": "No theorem (correspondence + implementation-side evaluation only): cat / split of FlowFields along non-batch dimensions, operations "
+            "with three or more operands mixing single images and batches, batch o flow field, ImageBatch.sample, the values of converted flow vectors. Trusted: torch's shape/index semantics as modelled "
             "in data_sem (validated per run by one-hot provenance probes), torch's override selection, Coq kernel.",
 }
